@@ -255,7 +255,7 @@ package buffer
 //@   setup Wrap
 
 //@ func (*Buffer).checkLimit
-//@   props C15
+//@   props C06 C15
 //@   requires b != nil && req != nil
 //@   modifies nothing
 //@   ensures declared_length_over_the_maximum: (result != nil) <==> (b.maxRequestBodyBytes > 0 && req.ContentLength > b.maxRequestBodyBytes)
